@@ -314,6 +314,11 @@ func parseGroupName(prefix string, p string) string {
 		return ""
 	}
 
+	// backslashes are never valid in group names
+	if strings.ContainsRune(name, '\\') {
+		return ""
+	}
+
 	name = path.Clean("/" + name)
 	return name[1:]
 }
